@@ -94,7 +94,7 @@ func (list *List) adjoin(b []byte) []byte {
 	for i, n := range list.children {
 		if 0 < i {
 			if n.newline() {
-				b = append(b, indent[:n.left()+1]...)
+				b = newlineIndent(b, n.left())
 			} else {
 				b = append(b, ' ')
 			}
